@@ -272,13 +272,14 @@ pub struct Session<C: Suite> {
 pub struct HState<C: Suite> {
     pub pk: Option<PublicKeyPackage<C>>,
     pub pk_from: BTreeMap<u32, BTreeSet<usize>>,
+    pub pk_by_inst: BTreeMap<u32, PublicKeyPackage<C>>,
     pub sessions: BTreeMap<u32, Session<C>>,
     pub started: BTreeSet<u32>,
 }
 
 impl<C: Suite> Default for HState<C> {
     fn default() -> Self {
-        HState { pk: None, pk_from: BTreeMap::new(), sessions: BTreeMap::new(), started: BTreeSet::new() }
+        HState { pk: None, pk_from: BTreeMap::new(), pk_by_inst: BTreeMap::new(), sessions: BTreeMap::new(), started: BTreeSet::new() }
     }
 }
 
@@ -295,6 +296,9 @@ impl<C: Suite> HState<C> {
         }
         for i in &self.started {
             s.insert(format!("started/{i}"), vec![1]);
+        }
+        for (inst, pk) in &self.pk_by_inst {
+            put(&mut s, fmt, format!("pkinst/{inst}"), pk)?;
         }
         for (inst, se) in &self.sessions {
             let p = format!("sess/{inst}/");
@@ -326,6 +330,9 @@ impl<C: Suite> HState<C> {
                 }
                 ["started", i] => {
                     st.started.insert(i.parse().map_err(|_| "bad key")?);
+                }
+                ["pkinst", i] => {
+                    st.pk_by_inst.insert(i.parse().map_err(|_| "bad key")?, dec(fmt, v).map_err(|e| format!("decode PublicKeyPackage: {e}"))?);
                 }
                 ["sess", inst, rest @ ..] => {
                     let se = st.sessions.entry(inst.parse().map_err(|_| "bad key")?).or_default();
@@ -1240,12 +1247,17 @@ impl<C: Suite> Sim<C> {
                     Err(e) => return self.err(hub, inst, "decode PublicKeyPackage", e),
                 };
                 let h = self.hub.as_mut().unwrap();
-                let first = h.pk_from.get(&inst).map(|s| s.is_empty()).unwrap_or(true);
                 h.pk_from.entry(inst).or_default().insert(env.from);
-                if first {
-                    h.pk = Some(pk);
-                } else if h.pk.as_ref() != Some(&pk) {
-                    self.history.push(Record::HubPkMismatch { inst, from: env.from });
+                match h.pk_by_inst.get(&inst) {
+                    None => {
+                        h.pk_by_inst.insert(inst, pk.clone());
+                        h.pk = Some(pk);
+                    }
+                    Some(first) => {
+                        if *first != pk {
+                            self.history.push(Record::HubPkMismatch { inst, from: env.from });
+                        }
+                    }
                 }
             }
             Kind::Commitments => {
